@@ -239,6 +239,13 @@ func illFittingHooks() []*scen.Scenario {
 		add("unknownpkg", "", "nopkg.Hook", nil, false)
 		add("variadic", "func h(d *B, s *A, more ...int) {}\n", "h", nil, false)
 		add("scalar", "func h(d int, s string) {}\n", "h", nil, false)
+		// an additional parameter that differs from the method's argument by one level of pointer (the
+		// arguments are passed on verbatim), in both directions
+		add("extrasptrless", "func h(d *B, s *A, n int) {}\n", "h", []scen.Param{{Type: "*int"}}, false)
+		add("extrasptrmore", "func h(d *B, s *A, n *int) {}\n", "h", []scen.Param{{Type: "int"}}, false)
+		add("extrasstructptr", "func h(d *B, s *A, o C) {}\n", "h", []scen.Param{{Type: "*C"}}, false)
+		// a result of a CONCRETE type that implements error (a nil *T stored in err is a non-nil error)
+		add("rettypederr", "type hErr struct{}\n\nfunc (*hErr) Error() string { return \"h\" }\n\nfunc h(d *B, s *A) *hErr { return nil }\n", "h", nil, true)
 	}
 	// one hook function shared by two methods: it fits one of them and not the other, whichever is
 	// declared (or sorts) first - every USE of a hook has to be checked against its own method
